@@ -715,9 +715,10 @@ func (p *parser) unary() (ast.Node, error) {
 
 	var res ast.Node
 
-	// special case for max negative long
+	// special case for max negative long; a literal that is the receiver of a member access
+	// (`-1.foo()` is `-(1.foo())`) is not a negative literal and is left to member()
 	tok := p.peek()
-	if len(ops) > 0 && ops[len(ops)-1] && tok.isInt() {
+	if len(ops) > 0 && ops[len(ops)-1] && tok.isInt() && !p.memberAccessFollows() {
 		p.advance()
 		i, err := strconv.ParseInt("-"+tok.Text, 10, 64)
 		if err != nil {
@@ -741,6 +742,15 @@ func (p *parser) unary() (ast.Node, error) {
 		}
 	}
 	return res, nil
+}
+
+// memberAccessFollows reports whether the token after the current one starts a member access.
+func (p *parser) memberAccessFollows() bool {
+	if p.pos+1 >= len(p.tokens) {
+		return false
+	}
+	next := p.tokens[p.pos+1].Text
+	return next == "." || next == "["
 }
 
 func (p *parser) member() (ast.Node, error) {
